@@ -67,7 +67,7 @@ class ModuleReader(Reader):
         (self.object.layer,) = unpack("<I", data)
 
     def process_SSCL(self, data):
-        (self.object.scale,) = unpack("<I", data)
+        (self.object.mod_scale,) = unpack("<I", data)
 
     def process_SVPR(self, data):
         (self.object.visualization,) = unpack("<I", data)
